@@ -65,6 +65,28 @@ def gen_items(chk, tier, cli):
     for b in ro:
         for l in ro:
             for x in ro: items.append(sym_item(b, l, x, 'exh-retype-sym', J))
+    # same-position inserts of longer runs (excluded from the symmetry judgement, but part of T1)
+    t3 = M.small_lists(3)
+    for _ in range(1500 if quick else 0):
+        items.append(sym_item(r.choice(t3), r.choice(t3), r.choice(t3), 'rand-sym-list3', J))
+    # one side removes a key, the other edits only a transient leaf below it (needs a transients table)
+    for _ in range(200 if quick else 2000):
+        inner = {k: r.choice([1, 2, 'v', True]) for k in r.sample(['collapsed', 'scrolled', 'k', 'name'], r.choice([2, 3]))}
+        key = r.choice(['m', 'meta', 'a'])
+        base = {key: inner, 'other': r.choice([1, 'x'])}
+        removed = {k: v for k, v in base.items() if k != key}
+        leaf = r.choice(sorted(inner))
+        edited = copy.deepcopy(base); edited[key][leaf] = ['changed', inner[leaf]]
+        if r.random() < 0.3:
+            leaf2 = r.choice(sorted(inner)); edited[key][leaf2] = ['changed', inner[leaf2]]
+        trans = ['/%s/%s' % (key, l) for l in sorted(inner) if l in ('collapsed', 'scrolled') or r.random() < 0.3]
+        st = {'table': {}, 'transients': trans}
+        T = (lambda st: lambda b_, l_, r_: jtask(b_, l_, r_, st))(st)
+        items.append(sym_item(base, removed, edited, 'transient-sym', T))
+        wrapped = [base, 0]
+        items.append(sym_item(wrapped, [removed, 0], [edited, 0], 'transient-sym', T) if False else
+                     sym_item({'w': base}, {'w': removed}, {'w': edited}, 'transient-sym',
+                              (lambda st2: lambda b_, l_, r_: jtask(b_, l_, r_, st2))({'table': {}, 'transients': ['/w' + t for t in trans]})))
     # --- random generic JSON
     for _ in range(400 if quick else 4000):
         b = genjson.gen_container(r, depth=r.choice([2, 3, 3, 4]))
@@ -138,7 +160,7 @@ def minimise(it, sig):
 
 def run(tier, seed):
     chk = core.Check(PROP, tier, seed)
-    b = core.build()
+    b = M.build_and_snapshot(chk)
     chk.proof_obligations('Props/C05.v', b)
     cli = M.cli_strategies()
     items = gen_items(chk, tier, cli)
@@ -160,9 +182,12 @@ def run(tier, seed):
                 shrunk.add(sig); rep = minimise(it, sig)
             chk.violation(sig, case_of(rep), detail)
     # --- T1: model = implementation (decisions and merged documents), on every task of the run
-    # (notebooks and random documents first, so that the per-tier line budget never starves them)
-    prio = lambda t: 0 if t['op'] == 'merge_nb' else (1 if len(json.dumps(t['base'])) > 40 else 2)
-    order = sorted(range(len(tasks)), key=lambda i: prio(tasks[i]))
+    # (round-robin over the case families, so that the per-tier line budget never starves one of them)
+    fam = [it['src'] for it in items for _ in it['tasks']]
+    seen = {}; rank = []
+    for f in fam:
+        seen[f] = seen.get(f, 0) + 1; rank.append(seen[f])
+    order = sorted(range(len(tasks)), key=lambda i: (rank[i], fam[i]))
     st = M.t1(chk, [tasks[i] for i in order], [results[i] for i in order], b, limit=(30000 if tier == 'quick' else 150000))
     chk.cov.update({
         'evaluations': len(tasks), 'distinct_nontrivial': len(nontriv),
@@ -177,6 +202,7 @@ def run(tier, seed):
     })
     for it in items[:1] + items[len(items) // 2: len(items) // 2 + 1] + items[-1:]:
         chk.sample({'kind': it['kind'], 'src': it['src'], 'task': {k: v for k, v in it['tasks'][0].items()}}, limit=4)
+    M.drop_snapshot()
     return chk.finish('proof', M.ASSUME)
 
 def replay(path):
